@@ -39,7 +39,18 @@ class UserLight(LightNodeMixin):
         self.parent = parent
 
 
+class LightStr(LightNodeMixin):
+    """a single slot declared as a plain string (Python reads it as one slot name, not as characters)"""
+    __slots__ = "label"
+
+    def __init__(self, label, parent=None):
+        self.label = label
+        self.parent = parent
+
+
 def make(kind, i, parent, nodes):
+    if kind == "LightStr":
+        return LightStr("s%d" % i, parent)
     if kind == "Node":
         return Node("n%d" % i, parent=parent, extra=[i])
     if kind == "AnyNode":
@@ -56,7 +67,7 @@ def make(kind, i, parent, nodes):
     raise ValueError(kind)
 
 
-MIXES = [["Node"], ["AnyNode", "Node"], ["User", "Symlink", "Node"], ["Node", "Node", "Symlink", "AnyNode"], ["Light"], ["LightDict"]]
+MIXES = [["Node"], ["AnyNode", "Node"], ["User", "Symlink", "Node"], ["Node", "Node", "Symlink", "AnyNode"], ["Light"], ["LightDict"], ["LightStr"]]
 
 
 def build(shape, mix):
